@@ -419,8 +419,8 @@ func (w *world) evaluate(dials []simnet.DialRecord) {
 		if r.plan.variant == varOversized && r.endKind == "server-reset" {
 			o.Probe("oversized-request-reset")
 		}
-		if r.endKind == "client-timeout" {
-			o.Probe("client-deadline")
+		if r.endKind == "server-reset" && r.ddr && r.finalStamp == 0 && r.endAt-r.startAt >= 14*time.Second {
+			o.Probe("server-timed-out-waiting-for-dial-data")
 		}
 	}
 	if rejected > 0 {
